@@ -135,28 +135,17 @@ LamText(lay) ==
 Text(lay) == IF IsDef(lay) THEN DefText(lay) ELSE LamText(lay)
 
 \* --- the product -----------------------------------------------------------
-DefLayouts ==
-    {[form |-> f, ws |-> w, deco |-> dc, pre |-> p, hdr |-> h, doc |-> ds, body |-> b, tail |-> t,
-      embed |-> "-", ml |-> "-", lbody |-> "-", lpar |-> "-", cmt |-> FALSE] :
-        f \in DefForms, w \in WsKinds, dc \in 0..(NDeco - 1), p \in {"none", "both"},
-        h \in {"norm", "ann", "ml"}, ds \in OrigDocs, b \in 0..(NBody - 1),
-        t \in {"none", "tc", "last"}}
-OneLineLayouts ==
-    {[form |-> f, ws |-> w, deco |-> dc, pre |-> p, hdr |-> "one", doc |-> ds, body |-> 0, tail |-> t,
-      embed |-> "-", ml |-> "-", lbody |-> "-", lpar |-> "-", cmt |-> FALSE] :
-        f \in DefForms, w \in WsKinds, dc \in 0..(NDeco - 1), p \in {"none", "both"},
-        ds \in {0, 2}, t \in {"none", "tc"}}
+\* (enumerated by MxFormula!Init dimension by dimension; a constant-level set of all the
+\*  layouts would be evaluated -- and sorted -- by TLC at every start)
+\*   def forms, normal body : form x ws x deco x pre{none,both} x hdr{norm,ann,ml} x doc 0..5
+\*                            x body x tail{none,tc,last}
+\*   def forms, one-line body: form x ws x deco x pre x doc{0,2} x tail{none,tc}
+\*   lambda forms           : form x ws x embed x ml x lbody x lpar x cmt, LamValid
 Embeds == {"bare", "assign", "semi", "call", "paren"}
 MlKinds == {"none", "own", "bs", "outer", "before", "after"}
 LamValid(f, e, m) ==
     /\ (m \in {"outer", "before", "after"} => e \in {"call", "paren"})
     /\ (f = "lamobj" => e # "bare")
-LamLayouts ==
-    {[form |-> f, ws |-> w, deco |-> 0, pre |-> "none", hdr |-> "-", doc |-> 0, body |-> 0, tail |-> "-",
-      embed |-> e, ml |-> m, lbody |-> lb, lpar |-> lp, cmt |-> c] :
-        f \in LamForms, w \in WsKinds, e \in Embeds, m \in MlKinds,
-        lb \in {"plain", "compr", "pp"}, lp \in {"xy", "x", "none"}, c \in BOOLEAN}
-AllLayouts == DefLayouts \cup OneLineLayouts \cup {l \in LamLayouts : LamValid(l.form, l.embed, l.ml)}
 
 StrNo(s, seq) == CHOOSE i \in DOMAIN seq : seq[i] = s
 \* a number that changes with every dimension (used to spread the derived choices)
